@@ -442,7 +442,8 @@ def parseAtom (ar : Arith) (a : Atom) (bt : Nat) (isBool : Bool) (scale offset :
     else if hasDot s then .unmodelled      -- no case of the switch, but a text with a '.' goes through ParseFloat first
     else .ok .invalid
   | .scaled v sc off =>
-    if sc == scale && off == offset then
+    if bt == btString then .unmodelled      -- a string field takes the text as it is, which this piece does not carry
+    else if sc == scale && off == offset then
       match ar.scaled v bt scale offset with
       | some r => .ok r
       | none => .err
